@@ -343,18 +343,15 @@ pub fn replay(args: &Args) -> i32 {
         let (mut obs, _) = read_streams(&m.file, &m.streams);
         // the same workbook through the public reader
         if let Some((_, wbytes)) = m.streams.iter().find(|s| s.0 == "Workbook") {
+            // the read of the canonical layout (cached per length) and of this layout must both be
+            // the workbook that was written
             let canon = canon_cache
                 .entry(wbytes.len())
-                .or_insert_with(|| {
-                    let c = read_xls(&cfb::simple_cfb(&[("Workbook", wbytes.as_slice())]));
-                    if c != wb_expected() {
-                        eprintln!("harness: canonical layout reads {} instead of {}", c, wb_expected());
-                        std::process::exit(2);
-                    }
-                    c
-                })
+                .or_insert_with(|| read_xls(&cfb::simple_cfb(&[("Workbook", wbytes.as_slice())])))
                 .clone();
-            ideal["xls"] = canon;
+            ideal["canonical"] = wb_expected();
+            obs["canonical"] = canon;
+            ideal["xls"] = wb_expected();
             obs["xls"] = read_xls(&m.file);
         }
         if obs != ideal {
